@@ -100,6 +100,29 @@ pub fn take_challenge_log() -> Vec<(&'static [u8], BlsScalar)> {
     CHALLENGES.with(|c| core::mem::take(&mut *c.borrow_mut()))
 }
 
+#[cfg(feature = "std")]
+std::thread_local! {
+    static PAIRINGS: RefCell<Vec<dusk_bls12_381::Gt>> = const { RefCell::new(Vec::new()) };
+}
+
+/// The value of the pairing product a verifier compares with the identity.
+#[cfg(feature = "std")]
+pub(crate) fn log_pairing_product(value: &dusk_bls12_381::Gt) {
+    PAIRINGS.with(|c| {
+        let mut c = c.borrow_mut();
+        if c.len() < 64 {
+            c.push(*value);
+        }
+    });
+}
+
+/// Drain the log of pairing products computed by verifiers on this thread
+/// since the last call.
+#[cfg(feature = "std")]
+pub fn take_pairing_log() -> Vec<dusk_bls12_381::Gt> {
+    PAIRINGS.with(|c| core::mem::take(&mut *c.borrow_mut()))
+}
+
 /// Read-only copy of a composer's emitted layout and witness table.
 #[derive(Debug, Clone, PartialEq, Eq)]
 pub struct Snapshot {
